@@ -185,7 +185,7 @@ impl SixelParser {
                     self.parsed_numbers.push(parse_next_number(d, ch as u8));
                 } else {
                     if let Some(i) = self.parsed_numbers.first() {
-                        for _ in 0..*i {
+                        for _ in 0..(*i).min(MAX_SIXEL_SIZE) {
                             self.parse_sixel_data(ch)?;
                         }
                     } else {
@@ -206,6 +206,9 @@ impl SixelParser {
             return Err(ParserError::InvalidSixelChar(ch).into());
         }
         let mask = ch as u8 - b'?';
+        if self.sixel_cursor.x >= MAX_SIXEL_SIZE || self.sixel_cursor.y * 6 >= MAX_SIXEL_SIZE {
+            return Ok(());
+        }
 
         let fg_color = self
             .current_sixel_palette
